@@ -271,7 +271,9 @@ theorem execNode_rel {plan : Plan} {R : Int × Int} {n : Node} {env env' : Env}
         obtain ⟨hw, hin⟩ := fetch_rel henv n.name hm
         have hl : ins.length = n.deps.length := mapE_length hm
         obtain ⟨h1, h2, h3⟩ := node_hom hk hn hd hl hin hs
-        refine ⟨n.kernel.whole (ins.map rows), by simp [wholeNode, hw], fun hst => ?_⟩
+        have hwl : (n.kernel.whole (ins.map rows)).length = n.provides.length := by
+          rw [← h3]; simpa using hlen
+        refine ⟨n.kernel.whole (ins.map rows), by simp [wholeNode, hw, hwl], fun hst => ?_⟩
         obtain ⟨o1, o2, -⟩ := override_rows hlen h3 h2 hst
         constructor
         · rw [wenvOf_append, wenvOf_zip, o1]
